@@ -19,6 +19,12 @@ fn report_text(r: &cooklang::error::SourceReport) -> String {
     let mut s = String::new();
     for d in r.iter() {
         s.push_str(&format!("{:?}|{:?}|{}|{:?}|{:?};", d.severity, d.stage, d.message, d.labels, d.hints));
+        // the chain of causes is part of what a caller can read (Error::source, the rendered report)
+        let mut src = std::error::Error::source(d);
+        while let Some(e) = src {
+            s.push_str(&format!("<-{e}"));
+            src = e.source();
+        }
     }
     s
 }
